@@ -28,6 +28,7 @@ import r36_zerodensity
 import r37_polarcap
 import r38_twinfield
 import r39_broadcast
+import r40_ranges
 import r06_validate
 import r07_cache
 import r08_toporder
@@ -163,6 +164,15 @@ R39_SCOPES = {"C02": ("feos_core::state", "feos_core::cubic", "feos::"), "C01": 
 
 def r39(ctx, prop):
     return r39_broadcast.run(ctx.F(), R39_SCOPES[prop])
+
+
+R40_SCOPES = dict(R25_SCOPES) if "R25_SCOPES" in globals() else {}
+
+
+def r40(ctx, prop):
+    sc = dict(R25_SCOPES)
+    sc.update({"C09": ("feos::",), "C14": ("parameter",), "C02": ("feos::", "feos_core::state", "feos_core::cubic")})
+    return r40_ranges.run(ctx.F(), sc[prop])
 
 
 def r38(ctx, prop):
@@ -385,23 +395,23 @@ def r12(ctx, prop):
 
 
 PROPERTY_RULES = {
-    "C08": [r10_wrapper, r11, r2, r20, r21, r25, r27, r37, r38],
-    "C09": [r12, r18, r20, r10_wrapper, r30, r38],
-    "C02": [r3, r7, r39],
+    "C08": [r10_wrapper, r11, r2, r20, r21, r25, r27, r37, r38, r40],
+    "C09": [r12, r18, r20, r10_wrapper, r30, r38, r40],
+    "C02": [r3, r7, r39, r40],
     "C10": [r10_selector, r8, r1_idealgas, r3, r19, r25, r29, r10_selconst, r1_guard_idealgas],
-    "C14": [r14, r13, r10_identifier, r21, r27, r28, r38],
+    "C14": [r14, r13, r10_identifier, r21, r27, r28, r38, r40],
     "C15": [r15],
     "C20": [r10_transport, r21, r25, r24, r34, r10_selconst],
-    "C01": [r1_all, r2, r7, r8, r4, r25, r24, r26, r28, r29, r39],
+    "C01": [r1_all, r2, r7, r8, r4, r25, r24, r26, r28, r29, r39, r40],
     "C13": [r1_guard, r8, r21, r32, r36],
-    "C17": [r1_functional, r8, r22, r25, r21, r26, r28, r33],
+    "C17": [r1_functional, r8, r22, r25, r21, r26, r28, r33, r40],
     "C11": [r9, r7],
-    "C03": [r6, r17, r4, r5, r25, r24, r26, r31],
-    "C04": [r4, r16, r25, r24, r26, r31, r10_selconst],
-    "C05": [r4, r5, r16, r25, r24, r26, r31, r10_selconst, r39],
-    "C06": [r4, r1_all, r21, r25, r24, r26, r28, r31, r39],
-    "C07": [r5, r4, r25, r24, r26, r31, r10_selconst],
-    "C18": [r4, r16, r25, r24, r26, r35, r39],
+    "C03": [r6, r17, r4, r5, r25, r24, r26, r31, r40],
+    "C04": [r4, r16, r25, r24, r26, r31, r10_selconst, r40],
+    "C05": [r4, r5, r16, r25, r24, r26, r31, r10_selconst, r39, r40],
+    "C06": [r4, r1_all, r21, r25, r24, r26, r28, r31, r39, r40],
+    "C07": [r5, r4, r25, r24, r26, r31, r10_selconst, r40],
+    "C18": [r4, r16, r25, r24, r26, r35, r39, r40],
 }
 
 
